@@ -126,6 +126,9 @@ func TestV1RaceWorker(t *testing.T) {
 	if path == "" {
 		t.Skip("only runs as the child process of TestV1Race")
 	}
+	// the readers treat a key as acra's callers do: used (copied) and wiped. A keystore that hands two goroutines
+	// the same slice shows as empty / foreign key values with the other reader
+	kshist.WipeReturnedKeys = true
 	b, err := os.ReadFile(path)
 	if err != nil {
 		t.Fatal(err)
